@@ -1,0 +1,8 @@
+//go:build verif
+
+package cli
+
+// VerifReadConfig exposes the CLI config reader (viper read, discard_overflow pre-pass,
+// DecodeAndValidate on DefaultConfig) to the /verif harness. Like readConfig it terminates
+// the process through zap's Fatal when the config cannot be read or decoded.
+func VerifReadConfig(args []string) *CliConfig { return readConfig(args) }
